@@ -3,6 +3,7 @@ import MysticVerif.Basic.Proto
 import MysticVerif.Model.Collapse
 import MysticVerif.Model.CollapseApply
 import MysticVerif.Model.CollapseMeasure
+import MysticVerif.Model.CollapseCost
 
 namespace MysticVerif.DrvC11
 open MysticVerif MysticVerif.Clps
@@ -145,6 +146,50 @@ def parseMRound : Val → Option MRound
 def pGroups (groups : Groups) : String :=
   "(" ++ " ".intercalate (groups.map fun g => s!"({g.1} {pNs g.2})") ++ ")"
 
+
+/-! `collapse_cost` requests -/
+def parseIvs (v : Val) : Option (Ivs Float) := do
+  let l ← v.asList?
+  l.mapM fun
+    | .list [a, b] => do pure (← a.asFloat?, ← b.asFloat?)
+    | _ => none
+
+def parseCMask : Val → Option (CMask Float)
+  | .sym "none" => some .none
+  | .sym "other" => some .other
+  | .list [.sym "dict", .list es] => do
+      pure (.dict (← es.mapM fun
+        | .list [k, v] => do
+            let key ← (match k with
+              | .sym "none" => some CKey.none
+              | .sym "bad" => some CKey.bad
+              | .int i => some (CKey.int i)
+              | _ => none)
+            let val ← (match v with
+              | .sym "bad" => some CVal.bad
+              | .list [.sym "flat", a, b] => do pure (CVal.flat (← a.asFloat?) (← b.asFloat?))
+              | .list [.sym "list", l] => do pure (CVal.list (← parseIvs l))
+              | _ => none)
+            pure (key, val)
+        | _ => none))
+  | _ => none
+
+def parsePerms : Val → Option (Option (List (List Nat)))
+  | .sym "none" => some none
+  | .list (.sym "p" :: ps) => do pure (some (← ps.mapM Val.asNats?))
+  | _ => none
+
+def pIvs (l : Ivs Float) : String := "(" ++ " ".intercalate (l.map fun p => s!"({pF p.1} {pF p.2})") ++ ")"
+
+def pBDict (d : BDict Float) : String :=
+  "(" ++ " ".intercalate (d.map fun kv =>
+    (match kv.1 with
+      | none => "(none "
+      | some i => s!"({i} ") ++ pIvs kv.2 ++ ")") ++ ")"
+
+/-- `par + d` at l.318: numpy float64 + int64 -/
+def addCount (v : Float) (k : Nat) : Float := v + Float.ofNat k
+
 def handle : Handler
   | .sym "at" :: args => Id.run do
     let some hist := (kw? args "hist").bind parseRows | return "bad-op"
@@ -220,6 +265,32 @@ def handle : Handler
     match applyRounds finf npts rounds x with
     | some y => return s!"ok y={pFs y} items={its}"
     | none => return s!"err index"
+  | .sym "cost" :: args => Id.run do
+    -- collapse_cost on a recorded history: per-parameter scan, mask intersection; also the hypotheses of the theorems
+    -- (every sorted column ascending, every reported interval list chain-ordered)
+    let some hist := (kw? args "hist").bind parseRows | return "bad-op"
+    let some costs := (kw? args "costs").bind Val.asFloats? | return "bad-op"
+    let some perms := (kw? args "perms").bind parsePerms | return "bad-op"
+    let some clip := (kw? args "clip").bind Val.asBool? | return "bad-op"
+    let some limit := (kw? args "limit").bind Val.asFloat? | return "bad-op"
+    let some samples := (kw? args "samples").bind optInt? | return "bad-op"
+    let some mask := (kw? args "mask").bind parseCMask | return "bad-op"
+    match collapseCost (-finf) finf addCount hist costs perms clip limit samples mask with
+    | .ok r =>
+      let size := (hist.head?.map List.length).getD 0
+      let srt := (List.range size).all fun p =>
+        let col := costCol hist p
+        let perm := match perms with
+          | some ps => ps.getD p []
+          | none => sortPerm col
+        sortedL (perm.filterMap fun i => col[i]?)
+      return s!"ok res={pBDict r} chain={pB (r.all fun kv => chainOrd kv.2)} sorted={pB srt}"
+    | .error e => return s!"err {e.str}"
+  | .sym "ivinter" :: args => Id.run do
+    -- tools._interval_intersection
+    let some a := (kw? args "a").bind parseIvs | return "bad-op"
+    let some b := (kw? args "b").bind parseIvs | return "bad-op"
+    return s!"ok r={pIvs (ivInter a b)}"
   | _ => "bad-op"
 
 end MysticVerif.DrvC11
